@@ -3,7 +3,7 @@ import hsuite
 from props.c03 import TRUSTED, ASSUMPTIONS
 COQCHK = False
 NAMES = ['c16', 'c05']
-PROFILE = {'quick': 400, 'thorough': 25000, 'lengths': [14, 24, 40], 'finale': ['settle', 'sweep'], 'max_sessions': 8, 'weights': {'api': 22, 'send': 14, 'open': 10, 'open_rej': 6, 'open_ws': 5, 'disc': 8, 'post': 10, 'frame': 8, 'wsclose': 5, 'adv': 14, 'poll': 8, 'upgrade': 4, 'bad': 3}, 'monitor': True}
+PROFILE = {'quick': 400, 'thorough': 5000, 'lengths': [14, 24, 40], 'finale': ['settle', 'sweep'], 'max_sessions': 8, 'weights': {'api': 22, 'send': 14, 'open': 10, 'open_rej': 6, 'open_ws': 5, 'disc': 8, 'post': 10, 'frame': 8, 'wsclose': 5, 'adv': 14, 'poll': 8, 'upgrade': 4, 'bad': 3}, 'monitor': True}
 RULE = ('seeded histories (opens with every connect outcome, polls, posts, upgrade handshakes, WebSocket frames and closes, application calls, refused requests, clock advances) over up to 4 sessions, each run on the threaded and the asyncio server and through the model; '
         'long runs with up to 8 sessions, clients vanishing at every point, API calls with live / dead / unknown ids, monitoring on; finished by an advance of ping_interval + 7 x ping_timeout after which the table must hold exactly the live sessions. distinct = distinct (server, configuration, stimuli)')
 
